@@ -104,7 +104,7 @@ def correspond(ctx, scale):
             eff0 = mod.codebook.detach().clone() if kind == 'simvq' else None
             stepped = False
             for oi in range(rng.choice([6, 10, 16])):
-                op = rng.choice(['train_fwd', 'eval_fwd', 'backward', 'opt', 'fixed'] + (['loss_fwd', 'loss_fwd'] if kind == 'rpq' else []) + (['lowp_fwd', 'lowp_fwd'] if not params else [])
+                op = rng.choice(['train_fwd', 'eval_fwd', 'backward', 'opt', 'fixed', 'toggle_sub'] + (['loss_fwd', 'loss_fwd', 'toggle_sub'] if kind == 'rpq' else []) + (['lowp_fwd', 'lowp_fwd'] if not params else [])
                                 + (['decode', 'decode_coarse'] if kind in ('rfsq', 'rlfq', 'rsimvq', 'fsq', 'lfq', 'simvq') else []))
                 if kind == 'rpq' and oi == 0 and rep % 2 == 0:
                     op = 'loss_fwd'            # the loss path as the very first call of a fresh module
@@ -128,6 +128,17 @@ def correspond(ctx, scale):
                                     dist['decode_ops'] = dist.get('decode_ops', 0) + 1
                                 except (AssertionError, RuntimeError, TypeError):
                                     pass
+                    if op == 'toggle_sub':
+                        # train() / eval() called on ONE sub-module only (a "freeze everything but X" helper, a swapped-in pretrained part): the parent's
+                        # own flag then says nothing about its children - what is never learned stays untouched whatever the flags are
+                        subs = [sm for sm in mod.modules() if sm is not mod]
+                        if subs:
+                            rng.choice(subs).train(rng.random() < 0.7)
+                            dist['submodule_mode_toggles'] = dist.get('submodule_mode_toggles', 0) + 1
+                            fixed_idx = None if kind != 'rpq' else fixed_idx
+                            # followed by a forward that keeps the parent's current flag (no top-level train() / eval() call in between)
+                            mod(torch.randn(2, 5, dim))
+                            dist['forwards'] += 1
                     if op == 'lowp_fwd':
                         # a low-precision call (autocast-style): legal for the projection-free scalar quantizers; a dtype error is not our subject
                         mod.train(rng.random() < 0.5)
